@@ -6,7 +6,6 @@ use super::*;
 use crate::gen::valid::{gen_label, gen_valid_literal, name_of_wire_len, Cfg, OptPos};
 use crate::model::msg::*;
 use crate::model::refparse::{refparse, STRICT};
-use crate::mon::runaway_budget;
 use crate::prng::Rng;
 
 pub fn one(ctx: &mut Ctx, x: &[u8], m: &Msg, shape: &str) {
@@ -111,20 +110,40 @@ pub fn stress(rng: &mut Rng, fam: usize) -> Msg {
     let mut m = Msg { id: rng.u16(), flags: 0x8180, ..Default::default() };
     let cfg = Cfg { alphabet: 8, ..Default::default() };
     let lab = |rng: &mut Rng| -> Vec<u8> { gen_label(rng, &Cfg { alphabet: 12, mixed_case: false, long_names: false, ..Default::default() }) };
-    m.question.push(Question { name: Name::from_labels(&[b"q", b"example", b"com"]), qtype: 1, qclass: 1 });
+    // the question is remembered first (or not at all: the root, or a name longer than the dictionary keeps)
+    // (family 0 with the root as question: the nesting is then the ONLY thing the dictionary ever holds)
+    let qname = match if matches!(fam, 5 | 6 | 7 | 8) { 7 } else if fam == 0 { rng.below(2) * 7 } else { rng.below(8) } {
+        0 => Name::root(),
+        1 => {
+            let w = rng.range(130, 220);
+            name_of_wire_len(rng, w)
+        }
+        _ => Name::from_labels(&[b"q", b"example", b"com"]),
+    };
+    m.question.push(Question { name: qname, qtype: 1, qclass: 1 });
     match fam {
         0 => {
-            // x1.com, x2.x1.com, x3.x2.x1.com ... deeper than 16 (each new name can point into the previous one)
-            let depth = rng.range(18, 40);
+            // x1.com, x2.x1.com, x3.x2.x1.com ... around and beyond 16 levels (each new name can point into the
+            // previous one); the deepest name is used again at the end
+            let depth = if rng.chance(2, 3) { rng.range(14, 20) } else { rng.range(18, 40) };
             let mut n = Name::from_labels(&[b"com"]);
+            // in one section and in nesting order (each name can then point into the one just before it, which
+            // gives the longest chains), or spread over the sections; the question may be the innermost name
+            let single = rng.chance(1, 2);
+            if single && rng.chance(1, 2) {
+                m.question[0].name = n.clone();
+            }
             for i in 0..depth {
                 let mut l = vec![b'x'];
                 l.extend_from_slice(i.to_string().as_bytes());
                 n = Name(vec![l]).concat(&n);
-                let s = rng.below(3);
+                let s = if single { 0 } else { rng.below(3) };
                 m.sec[s].push(a_rec(n.clone()));
             }
             // keep section order (an, ns, ar) meaningful: names were pushed in creation order per section
+            if rng.chance(2, 3) {
+                m.sec[if single { 0 } else { 2 }].push(a_rec(n.clone()));
+            }
         }
         1 => {
             // more than 32 distinct suffixes, each used twice, first one reused at the end (pinned entry)
